@@ -68,3 +68,31 @@ def _m_scale(case, v, args):
         return False
     import math
     return any(math.floor(a[2] * c + 1e-12) < a[2] for a in _scc_arcs(case))
+
+
+def _reach_caps(case):
+    """independent recomputation of the per-arc repetition cap the cyclic LAE/MPE models use: the largest weight
+    among the arc itself, arcs reachable forward from its head and arcs that can reach its tail"""
+    from . import oracles as O
+    E = [(a[0], a[1]) for a in case["arcs"]]
+    w = {(a[0], a[1]): (a[2] or 0) for a in case["arcs"]}
+    g = O.STGraph(case["nodes"], E)
+    caps = {}
+    for (u, v) in E:
+        fw = g.reach_fwd(v)
+        bw = g.reach_bwd(u)
+        best = w[(u, v)]
+        for (x, y) in E:
+            if x in fw or y in bw:
+                best = max(best, w[(x, y)])
+        caps[(u, v)] = best
+    return caps
+
+
+@matcher("cyclic_optimum_needs_more_traversals_than_max_reachable_weight")
+def _m_cap(case, v, args):
+    """D10: kLeastAbsErrorsCycles / kMinPathErrorCycles allow an arc at most (largest weight in its reach) traversals
+    per walk. The check itself establishes the cause: it re-runs the brute force with the walk family restricted to
+    those caps (recomputed independently by _reach_caps) and uses the *_beyond_cap kinds only when the library is
+    optimal within the caps, i.e. the better witness necessarily traverses some arc more often than its cap."""
+    return case.get("fam") == "cyc" and v.get("kind") in ("lae_not_optimal_beyond_cap", "mpe_not_optimal_beyond_cap", "mpe_unsolved_beyond_cap")
